@@ -13,6 +13,7 @@ func (*verifServer) register(*serverConn)                  {}
 func (*verifServer) ev(int)                                {}
 func (*verifServer) busy()                                 {}
 func (*verifServer) idle(Streams, int, int, int, int, int) {}
+func (*verifServer) discarded(int)                         {}
 
 type verifClient struct{}
 
